@@ -29,13 +29,13 @@ DEFAULT_ALLOWED = ["openid", "profile", "email", "address", "phone", "offline_ac
 SCOPES = ["openid", "profile", "email", "address", "phone", "offline_access", "foo", "openid"]
 
 
-def make_server(oidc=True, jwt=False, user="diana", usage=None):
+def make_server(oidc=True, jwt=False, user="diana", usage=None, keys=None, more_endpoints=None):
     from idpyoidc.server.authz import AuthzHandling
     rules = copy.deepcopy(USAGE_A)
     if usage == "no_code_expiry":
         del rules["authorization_code"]["expires_in"]
     extra = {"authz": {"class": AuthzHandling, "kwargs": {"grant_config": {"usage_rules": rules, "expires_in": 43200}}}}
-    s = opbase.make_op(jwt_tokens=jwt, extra=extra, user=user)
+    s = opbase.make_op(jwt_tokens=jwt, extra=extra, user=user, keys=keys, more_endpoints=more_endpoints)
     if not oidc:
         from idpyoidc.server.oauth2.token import Token as OToken
         # swap the token endpoint for the OAuth2 flavour
@@ -64,9 +64,9 @@ CLS = {AuthorizationCode: "code", AccessToken: "access", RefreshToken: "refresh"
 class Runner:
     """one long-lived provider; handles (ints) for grants and tokens in creation order, mirroring the model's counter"""
 
-    def __init__(self, oidc=True, jwt=False, usage=None):
-        self.oidc, self.jwt = oidc, jwt
-        self.s = make_server(oidc, jwt, usage=usage)
+    def __init__(self, oidc=True, jwt=False, usage=None, keys=None, more_endpoints=None):
+        self.oidc, self.jwt, self.usage, self.keys, self.more_endpoints = oidc, jwt, usage, keys, more_endpoints
+        self.s = make_server(oidc, jwt, usage=usage, keys=keys, more_endpoints=more_endpoints)
         self.sm = self.s.context.session_manager
         self.h = {}          # real value / grant id -> handle
         self.val = {}        # handle -> token value
@@ -74,6 +74,28 @@ class Runner:
         self.next = 0
         self.pending = []    # parsed token requests
         clock.CLOCK.t = T0
+
+    def restored(self, mode="ctx"):
+        """C13: export the state, discard this instance, build a fresh one from the same configuration, import.
+        mode: "sm" = session manager only, "ctx" = the whole endpoint context, "ctx-json" = same through a JSON text."""
+        import json
+        t = clock.CLOCK.t
+        store = self.sm.dump() if mode == "sm" else self.s.context.dump()
+        if mode == "ctx-json":
+            store = json.loads(json.dumps(store))
+        B = Runner(self.oidc, self.jwt, usage=self.usage, keys=self.keys, more_endpoints=self.more_endpoints)
+        clock.CLOCK.t = t
+        if mode == "sm":
+            # what lives outside the session manager is carried over by hand (it is not part of this export)
+            B.sm.load(store, init_args={"upstream_get": B.s.context.unit_get})
+        else:
+            B.s.context.load(store, init_args={"upstream_get": B.s.unit_get, "handler": B.s.context.session_manager.token_handler})
+            B.sm = B.s.context.session_manager
+        B.h, B.val, B.next, B.pending = dict(self.h), dict(self.val), self.next, list(self.pending)
+        gone = type("Gone", (), {"issued_token": [], "revoked": True, "scope": []})()
+        for hnd, (g, path) in self.gobj.items():
+            B.gobj[hnd] = (B.sm.db.db.get(";;".join(path), gone) if self.sm.db.db.get(";;".join(path)) is g else gone, path)
+        return B
 
     # -- bookkeeping
     def _scan(self):
@@ -95,6 +117,7 @@ class Runner:
         self.s.context.authn_broker.db["anon"]["method"].user = user
 
     def projection(self):
+        self._scan()
         toks, grants = [], []
         for hg in sorted(self.gobj):
             g, path = self.gobj[hg]
@@ -181,6 +204,28 @@ class Runner:
         except Exception:
             return False
         return False
+
+    def resolve_raw(self, slot, s, caller="client_1"):
+        """C04 binding: what the endpoint says the presented string belongs to: [sub, client_id] or None when refused"""
+        try:
+            if slot == "userinfo":
+                ep = self.s.get_endpoint("userinfo")
+                pr = ep.parse_request({}, http_info={"headers": {"authorization": "Bearer " + s}})
+                if "error" in pr:
+                    return None
+                out = ep.process_request(pr)
+                if "response_args" not in out or "error" in out:
+                    return None
+                return [out["response_args"].get("sub"), pr.get("client_id")]
+            ep = self.s.get_endpoint("introspection")
+            pr = ep.parse_request({"token": s, "client_id": caller, "client_secret": self.secret(caller)})
+            out = ep.process_request(pr)
+            ra = out["response_args"]
+            if not ra.get("active"):
+                return None
+            return [ra.get("sub"), ra.get("client_id")]
+        except Exception:
+            return None
 
     def op_tick(self, n):
         clock.CLOCK.t += n
